@@ -338,7 +338,9 @@ class Gen:
         for _ in range(self.rng.randint(1, nmax)):
             body.append(self.stmt(scopes, depth, nested=True))
         body += self.flush_unused(scopes)
-        if not any(s[0] in ("print", "assert") for s in body):
+        if body[-1][0] != "print":
+            # every block ends with a print!: a block whose last statement is a statement form (assert, for!, while!, if!)
+            # is transpiled to `tmp = assert ...` / `tmp = for ...` (listed finding of C17, exercised there)
             body.append(self.stmt_print(scopes, 1))
         return body
 
